@@ -11,11 +11,12 @@
  *        obscmp same|DIFF ...                   dump+XML+distances+memattrs+cpukinds+infos+support of B against A
  *   mut A|B <op>                   apply <op> to one topology; prints "mut ... rc= errno=" and
  *                                  "frame same|DIFF" = observation of the OTHER one before/after
- *   both <op>                      apply to A then B, then "obscmp" (same history on both must give the same result)
+ *   both <op>                      apply to A then B: "opcmp same|DIFF" (rc, errno, what the op reports, e.g. names through handles)
+ *                                  then "obscmp" (same history on both must give the same observation)
  *   destroy A|B                    hwloc_topology_destroy; "frame" for the survivor
  *   echo <text>
  * ops:  restrict <set> <flags> | misc <depth> <idx> <name> | group <set> | distadd <depth> <n> <kind> <flags> <seed>
- *       distrm | mreg <name> <flags> | mset <id> <numaidx> <-|set> <value> | kind <set> <eff> <name> <value>
+ *       distrm | distrmdepth <depth> | distfail | disthandle <name> <0 report|1 transform|3 release_remove> | mreg <name> <flags> | mset <id> <numaidx> <-|set> <value> | kind <set> <eff> <name> <value>
  *       robj <depth> <idx> <flags> (restrict to that object's cpuset/nodeset) | gobj <depth> <i> <j> | kobj <depth> <idx> <eff> <name> <value>
  *       mseto <id> <numaidx> <depth> <idx> <value> | obs | (depth >= 1000: depth of type depth-1000)
  *       info <depth> <idx> <name> <value> | tinfo <name> <value> | refresh | allow <flags> | ud <depth> <idx> | tud | cb
@@ -27,6 +28,7 @@
 #include "hwv_ptree.h"
 #include "hwv_load.h"
 #include <unistd.h>
+#include <stdarg.h>
 
 static int hwv_ud_target[4];
 static void hwv_export_cb(void *reserved, hwloc_topology_t t, hwloc_obj_t o) { (void)reserved; (void)t; (void)o; }
@@ -39,11 +41,19 @@ static hwloc_obj_t objat(hwloc_topology_t t, int depth, unsigned idx)
   return hwloc_get_obj_by_depth(t, depth, idx);
 }
 
+/* what an op reports besides rc/errno (names obtained through handles, ...): compared between A and B by "both" */
+static char op_report[2048];
+static void rep(const char *fmt, ...)
+{
+  va_list ap; size_t n = strlen(op_report);
+  va_start(ap, fmt); vsnprintf(op_report + n, sizeof(op_report) - n, fmt, ap); va_end(ap);
+}
+
 /* returns rc; *handled = 0 if the op is unknown */
 static int apply_op(hwloc_topology_t t, char *op, int *handled)
 {
   char a1[4200], a2[256], a3[256]; int d; unsigned u, u2; unsigned long fl, kind; long long ll; /* u2 doubles as int for kobj */
-  *handled = 1; errno = 0;
+  *handled = 1; errno = 0; op_report[0] = 0;
   if (sscanf(op, "restrict %4199s %lu", a1, &fl) == 2) {
     hwloc_bitmap_t s = hwv_parse_set(a1); int rc;
     if (!s) { errno = EINVAL; return -2; }
@@ -103,6 +113,36 @@ static int apply_op(hwloc_topology_t t, char *op, int *handled)
     return hwloc_distances_add_commit(t, h, fl);
   }
   if (!strcmp(op, "distrm")) return hwloc_distances_remove(t);
+  if (sscanf(op, "distrmdepth %d", &d) == 1) {
+    if (d >= 1000) d = hwloc_get_type_depth(t, (hwloc_obj_type_t)(d - 1000));
+    return hwloc_distances_remove_by_depth(t, d);
+  }
+  if (!strcmp(op, "distfail")) {   /* an add handle consumed without commit: add_values rejects a single object */
+    hwloc_obj_t o = hwloc_get_root_obj(t); hwloc_uint64_t v = 10; int rc;
+    hwloc_distances_add_handle_t h = hwloc_distances_add_create(t, "failed", 6, 0);
+    if (!h) return -1;
+    rc = hwloc_distances_add_values(t, h, 1, &o, &v, 0);
+    rep("add_values=%d;", rc);
+    return rc < 0 ? 0 : -1;
+  }
+  /* by-handle operations on every matrix called <name>: 0 report, 1 transform(REMOVE_NULL) and report, 3 release_remove */
+  if (sscanf(op, "disthandle %255s %u", a2, &u) == 2) {
+    struct hwloc_distances_s *ds[16]; unsigned nr = 16, i; int rc = 0;
+    if (hwloc_distances_get_by_name(t, a2, &nr, ds, 0) < 0) return -1;
+    rep("found=%u;", nr);
+    for (i = 0; i < nr && i < 16; i++) {
+      const char *nm = hwloc_distances_get_name(t, ds[i]);
+      rep("name=%s,nbobjs=%u,kind=%lu,v01=%llu;", nm ? nm : "(null)", ds[i]->nbobjs, ds[i]->kind, (unsigned long long)ds[i]->values[1]);
+      if (u == 1) { int r = hwloc_distances_transform(t, ds[i], HWLOC_DISTANCES_TRANSFORM_REMOVE_NULL, NULL, 0); rep("transform=%d,nbobjs=%u;", r, ds[i]->nbobjs); }
+      if (u == 3) { int r = hwloc_distances_release_remove(t, ds[i]); rep("release_remove=%d;", r); if (r < 0) rc = -1; }
+      else hwloc_distances_release(t, ds[i]);
+    }
+    { /* what is left, names through the handles */
+      struct hwloc_distances_s *all[32]; unsigned na = 32;
+      if (!hwloc_distances_get(t, &na, all, 0, 0)) for (i = 0; i < na && i < 32; i++) { const char *nm = hwloc_distances_get_name(t, all[i]); rep("%s/%u,", nm ? nm : "(null)", all[i]->nbobjs); hwloc_distances_release(t, all[i]); }
+    }
+    return rc;
+  }
   if (sscanf(op, "mreg %255s %lu", a2, &fl) == 2) { hwloc_memattr_id_t id; int rc = hwloc_memattr_register(t, a2, fl, &id); if (!rc) printf("mreg id=%u\n", id); return rc; }
   if (sscanf(op, "mset %u %u %4199s %lld", &u, &u2, a1, &ll) == 4) {
     hwloc_obj_t node = hwloc_get_obj_by_type(t, HWLOC_OBJ_NUMANODE, u2); struct hwloc_location loc; int rc; hwloc_bitmap_t s = NULL;
@@ -234,11 +274,15 @@ int main(void)
       if (!strcmp(before, after)) printf("frame same\n"); else { fputs("frame DIFF", stdout); hwv_first_diff(stdout, before, after); fputc('\n', stdout); }
       free(before); free(after);
     } else if (!strncmp(line, "both ", 5)) {
-      int h, rc1, rc2, e1, e2; char *op2 = strdup(line + 5);
+      int h, rc1, rc2, e1, e2; char *op2 = strdup(line + 5), *repA;
       if (!A || !B) { printf("both skipped\n"); free(op2); fflush(stdout); continue; }
-      rc1 = apply_op(A, line + 5, &h); e1 = errno;
+      rc1 = apply_op(A, line + 5, &h); e1 = errno; repA = strdup(op_report);
       rc2 = apply_op(B, op2, &h); e2 = errno; free(op2);
       printf("both %s rcA=%d errnoA=%s rcB=%d errnoB=%s\n", h ? "ok" : "unknown-op", rc1, rc1 < 0 ? hwv_errno_class(e1) : "0", rc2, rc2 < 0 ? hwv_errno_class(e2) : "0");
+      /* the same call on the original and on the copy must answer the same */
+      if (rc1 == rc2 && (rc1 >= 0 || e1 == e2) && !strcmp(repA, op_report)) printf("opcmp same [%.200s]\n", repA);
+      else printf("opcmp DIFF rcA=%d rcB=%d a=[%.300s] b=[%.300s]\n", rc1, rc2, repA, op_report);
+      free(repA);
       print_obscmp(A, B);
     } else if (!strcmp(line, "destroy A") || !strcmp(line, "destroy B")) {
       hwloc_topology_t *x = line[8] == 'A' ? &A : &B, y = line[8] == 'A' ? B : A;
